@@ -34,6 +34,10 @@ ASSUMPTIONS = [
     'against column); incompatible extents are recorded, not judged',
     'the scalar result is obtained from the same real function, so defects '
     'of the scalar rule itself (C02/C12) do not leak into this check',
+    'fitting is judged for *results* (formulas.functions.Array values): a '
+    'plain array pushed into a smaller range is a reference-like input and '
+    'gives #VALUE! as Excel\'s implicit intersection does (the repository '
+    'fixture test.xlsx CORE!J6 pins that)',
 ]
 
 ERR = xl.err
@@ -445,7 +449,9 @@ def run_fitting(ctx, rng, exhaustive_shapes=True):
                         c.add(d)
                         got = xl.canon(d()[c.output])
                     else:
-                        v = np.array(vals, object) if (sr, sc_) != (1, 1) else vals[0][0]
+                        from formulas.functions import Array
+                        v = np.array(vals, object).view(Array) \
+                            if (sr, sc_) != (1, 1) else vals[0][0]
                         got = xl.canon(Ranges().push(dest, v).value)
                 except Exception as ex:
                     ctx.violation('fit:raised:%s:%s:%s' % (path, cls, type(ex).__name__), {
